@@ -32,15 +32,24 @@ def valid_name(n: str) -> bool:
     return bool(re.fullmatch(r"[A-Za-z0-9_]+", n))
 
 
-def run_order(stack: list[dict[str, Any]]) -> list[dict[str, Any]]:
-    """Expected invocation order for a registration stack (top = last)."""
+def run_order(stack: list[dict[str, Any]], cancelled: bool = False) -> list[dict[str, Any]]:
+    """Expected invocation order for a registration stack (top = last). When the block was
+    cancelled the teardown runs in a cancelled scope: an asynchronous callback is invoked but its
+    awaitable is cancelled at its first checkpoint, i.e. before it does or registers anything."""
     stack = list(stack)
     out = []
     while stack:
         cb = stack.pop()
+        if cancelled and cb["async"]:
+            out.append({**cb, "body": [], "regs": [], "raises": {"k": "cancelled"}})
+            continue
         out.append(cb)
         stack.extend(cb["regs"])
     return out
+
+
+def exc_spec_name(e: dict[str, Any]) -> str:
+    return "cancelled" if e["k"] == "cancelled" else f"{e['k']}{e['n']}"
 
 
 def monitor_case(case: dict[str, Any], impl: list[dict[str, Any]]) -> list[tuple[str, str]]:
@@ -419,8 +428,10 @@ def monitor_exit(sh: Shadow, i: int, op: dict[str, Any], r: dict[str, Any]) -> N
     if x["state"] != "open":
         return
     be = op["end"]
-    be_name = "None" if be["k"] == "ret" else f"{be['k']}{be['n']}"
-    order = run_order(x["tds"])
+    be_name = "None" if be["k"] == "ret" else exc_spec_name(be)
+    order = run_order(x["tds"], cancelled=be["k"] == "cancelled")
+    if "NOT-CANCELLED" in res:
+        sh.flag("HARNESS", f"step {i}: the cancellation of the block was not delivered")
     # ---- trace shape
     trace = [s for s in res if s.startswith(("td+", "td-", "body"))]
     starts = [s for s in trace if s.startswith("td+")]
@@ -462,11 +473,16 @@ def monitor_exit(sh: Shadow, i: int, op: dict[str, Any], r: dict[str, Any]) -> N
     # ---- outcome
     if "closed" not in res:
         sh.flag("C01,C13", f"step {i}: context {c} does not report itself closed after the block was left")
-    raised = [f"{cb['raises']['k']}{cb['raises']['n']}" for cb in order if cb["raises"] is not None]
+    raised = [exc_spec_name(cb["raises"]) for cb in order if cb["raises"] is not None]
+    want_ends = [f"td- {cb['id']} {'ok' if cb['raises'] is None else exc_spec_name(cb['raises'])}" for cb in order]
+    if len(ends) == len(want_ends) and ends != want_ends:
+        sh.flag("C01", f"step {i}: callbacks ended {ends}, expected {want_ends}")
     outcome = res[-1] if res else ""
     open_children = {d for d in x["children"] if sh.ctx[d]["state"] in ("open", "closing")}
     if raised:
         want = f"raised [{', '.join(raised)}] grouped leafgroups=1"
+        if all(n == "cancelled" for n in raised):
+            want = "raised cancelledOnly"
         if outcome != want:
             sh.flag("C01", f"step {i}: teardown exceptions {raised} surfaced as {outcome!r}, expected {want!r}")
     elif open_children and (be["k"] == "ret" or x["parent"] is not None):
@@ -475,6 +491,9 @@ def monitor_exit(sh: Shadow, i: int, op: dict[str, Any], r: dict[str, Any]) -> N
     elif be["k"] == "ret":
         if outcome != "exitNormal":
             sh.flag("C01", f"step {i}: clean exit of context {c} surfaced as {outcome!r}")
+    elif be["k"] == "cancelled":
+        if outcome != "raised cancelledOnly":
+            sh.flag("C01", f"step {i}: the cancellation of the block surfaced as {outcome!r}")
     elif be["k"] == "exn":
         if outcome != f"raised [{be_name}] bare leafgroups=0":
             sh.flag("C01", f"step {i}: the block's own exception {be_name} surfaced as {outcome!r} (must be itself, not wrapped)")
